@@ -73,6 +73,20 @@ def tv_cases(ctx: Ctx, passes: list[str], programs, inputs_cap: int, extra_meta=
     return cases, metas, stats
 
 
+def _nest_uneven(text: str) -> bool:
+    """Loop-nest programs of progs.nest_family: is the inner range empty/negative or not a multiple of its step, or the outer step > 1?"""
+    import re
+
+    def c(name):
+        m = re.search(rf"%{name} = arith.constant (-?\d+) : index", text)
+        return int(m.group(1)) if m else None
+
+    ilb, iub, ist, ost = c("ilb"), c("iub"), c("ist"), c("ost")
+    if None in (ilb, iub, ist, ost):
+        return False
+    return not (iub > ilb and (iub - ilb) % ist == 0 and ost == 1)
+
+
 def judge(ctx: Ctx, cases, metas, what: str):
     res = casecheck.run_cases("sem/MachineCases.tla", cases, min_per_shard=4, timeout=3300, count_ends=lambda c: len(c["inputs"]))
     st: dict[str, int] = {}
@@ -93,6 +107,7 @@ def judge(ctx: Ctx, cases, metas, what: str):
         inp = [serialize.from_limbs(l) for l in c["inputs"][j - 1]]
         ctx.violate(f"pass {m['pass']} changes behaviour on input {inp}: {clause}\n--- before\n{m['text']}\n--- after\n{m.get('after', '')}",
                     {"clause": clause, "pass": m["pass"], "input": inp, "program": m["text"], "after": m.get("after", ""), "tag": m["tag"],
+                     "nest_trip_counts_uneven": _nest_uneven(m["text"]),
                      "step_scaled_by_multiplication": "arith.muli %st, " in m.get("after", "") or "arith.muli %ost, " in m.get("after", ""),
                      "unsigned_cmpi": any(f"cmpi {p}," in m["text"] for p in ("ult", "ule", "ugt", "uge"))}, clause=clause)
     ctx.coverage.update({"programs": len(cases), "disagreements_checked": sum(len(c["inputs"]) for c in cases), "machine_states": res.states,
